@@ -115,3 +115,10 @@ Definition caps_from_config (l : lconf) : list cap :=
 Definition build_open (l : lconf) : open :=
   {| o_ver := 4; o_as := if 65535 <? l_as l then AS_TRANS else l_as l; o_hold := l_hold l; o_id := l_id l;
      o_caps := caps_from_config l |}.
+
+(* ---- connection collision (fsm.isDominant; RFC 4271 6.8, RFC 6286 2.3): the connection WE opened survives iff our BGP
+   identifier, read as an unsigned 32-bit number (most significant octet first), is the higher one; with equal
+   identifiers the higher AS number decides *)
+Definition dominant (l : lconf) (o : open) : bool :=
+  (o_id o <? l_id l) || ((l_id l =? o_id o) && (remote_as o <? l_as l)).
+
